@@ -9,7 +9,7 @@ RELATED = {
     "C05": ["C05", "C11", "C15", "C13", "C04", "C06", "C08"], "C06": ["C06", "C12", "C02", "C13"], "C07": ["C07", "C03", "C08"],
     "C08": ["C08", "C09", "C13", "C05", "C07"], "C09": ["C09", "C10", "C04", "C08", "C03"],
     "C10": ["C10", "C09", "C04", "C01", "C07", "C15", "C08", "C03"], "C11": ["C11", "C05", "C02", "C01", "C14"], "C12": ["C12", "C13", "C16"],
-    "C13": ["C13", "C16", "C12", "C05"], "C14": ["C14", "C02", "C13"], "C15": ["C15", "C13", "C05", "C03", "C04"],
+    "C13": ["C13", "C16", "C12", "C05"], "C14": ["C14", "C02", "C13"], "C15": ["C15", "C13", "C05", "C03", "C04", "C12"],
     "C16": ["C16", "C13", "C08", "C15"], "C17": ["C17", "C01", "C13"],
 }
 SNAP = None
